@@ -12,6 +12,17 @@ pub mod ext {
     pub struct ExBorrowMutError(std::cell::BorrowMutError);
     #[verifier::external_type_specification] #[verifier::external_body]
     pub struct ExIoError(std::io::Error);
+    #[verifier::external_type_specification] #[verifier::external_body] #[verifier::reject_recursive_types(T)]
+    pub struct ExAssertUnwindSafe<T>(std::panic::AssertUnwindSafe<T>);
+    #[verifier::external_type_specification] #[verifier::external_body]
+    pub struct ExBorrowedFd<'a>(std::os::fd::BorrowedFd<'a>);
+    #[verifier::external_type_specification] #[verifier::external_body]
+    pub struct ExOwnedFd(std::os::fd::OwnedFd);
+    #[verifier::external_trait_specification]
+    pub trait ExAsFd {
+        type ExternalTraitSpecificationFor: std::os::fd::AsFd;
+        fn as_fd(&self) -> std::os::fd::BorrowedFd<'_>;
+    }
     #[verifier::external_type_specification] #[verifier::external_body]
     #[verifier::accept_recursive_types(T)] #[verifier::reject_recursive_types(A)]
     pub struct ExBinaryHeap<T, A: std::alloc::Allocator>(std::collections::BinaryHeap<T, A>);
@@ -22,6 +33,10 @@ pub mod ext {
     #[verifier::external_body]
     #[derive(Debug)]
     pub struct BoxDynError { b: Box<dyn std::error::Error + Sync + Send> }
+
+    /// ASSUMED: mem::take returns the old value and leaves T::default() behind
+    pub assume_specification<T: std::default::Default> [std::mem::take] (x: &mut T) -> (r: T)
+        ensures r == *old(x), call_ensures(T::default, (), *final(x));
 
     // RefCell: contents are opaque (DESIGN 1.3): a borrow yields an arbitrary value of T.
     pub assume_specification<T: ?Sized> [RefCell::<T>::borrow_mut] (c: &RefCell<T>) -> (r: RefMut<'_, T>);
